@@ -43,3 +43,30 @@ Print Assumptions C18_quote_styles_partial.
 Theorem C18_wildcard_spellings_partial : forall cfg pf rx cps cps' b b' st,
   exec_action cfg pf rx 12 cps b st = exec_action cfg pf rx 12 cps' b' st.
 Proof. reflexivity. Qed.
+
+
+(* ---------- from the path text (KeyParse.v, KeyAddr.v) ---------- *)
+From JP Require Import Grammar Tree EvalInv1 EvalInv4 EvalTop KeyDefs KeyParse KeyAddr.
+Local Open Scope N_scope.
+Open Scope list_scope.
+
+(* single vs double quotes, and .name vs ['name']: for every non-empty name without control characters the three
+   spellings $["name"], $['name'] and $.name (symbols backslash-escaped) are accepted and, on every object, return
+   the same results or all fail — proved from the text through the regenerated grammar, the actions and the
+   refinement theorem *)
+Theorem C18_name_spellings_agree : forall cfg parse_float regex_ok ffun afun regex_match,
+  (forall f v w, small v -> ffun f v = Some w -> small w) ->
+  (forall f l w, Forall small l -> afun f l = Some w -> small w) ->
+  forall c k m st, forallb dot_char (c :: k) = true -> small (VObj m) -> ok st ->
+  exists t1 t2 t3,
+    parse_with cfg parse_float regex_ok jsonpath_grammar (key_path 34 (c :: k)) = ParseOk t1 /\
+    parse_with cfg parse_float regex_ok jsonpath_grammar (key_path 39 (c :: k)) = ParseOk t2 /\
+    parse_with cfg parse_float regex_ok jsonpath_grammar (dot_path (c :: k)) = ParseOk t3 /\
+    match fst (eval_run ffun afun regex_match t1 (VObj m) st) with
+    | OOk rs => fst (eval_run ffun afun regex_match t2 (VObj m) st) = OOk rs /\ fst (eval_run ffun afun regex_match t3 (VObj m) st) = OOk rs
+    | OErr _ => (exists e, fst (eval_run ffun afun regex_match t2 (VObj m) st) = OErr e) /\
+                (exists e, fst (eval_run ffun afun regex_match t3 (VObj m) st) = OErr e)
+    | OPanic _ => False
+    end.
+Proof. exact spellings_agree. Qed.
+Print Assumptions C18_name_spellings_agree.
